@@ -18,6 +18,10 @@ CLAIMED = {
     text="Decided as a who-may-read property over the whole application-layer cone (every function reachable from proto::repl, resolved call graph incl. trait impls and closures): ClientInfo address/port/transport fields are read only by the three builders of address-bearing fields (STUN MAPPED-ADDRESS, portmapper, DNS A RDATA) and by the dispatcher (transport, cookie only); nothing there reads the Masscanned configuration; IP-address typed values exist only in those builders; no branch condition in the L2/L3/L4 functions depends on a port except through the SYN cookie; the payload handed to the dispatcher is the whole L4 payload on every path (UDP directly, TCP through the get_tcb callback that is invoked exactly once). This covers all 2^32 port pairs and both IP versions at once.",
     note="Differences between TCP and datagram transport that the specification itself makes (incremental vs one-shot matching, DNS fallback) are outside C19. Wall-clock reads are listed by C08.",
     technique="field read/write sets over the call-graph cone + branch-condition provenance slicing on MIR", ref="§4 C19"),
+ 'C08': dict(
+    text="Decided as a static non-interference argument: (R1) the crate's statics are exactly three lazy cells and one constant table; the payload types of the two matcher cells, the Smack automaton, ClientInfo and the Masscanned configuration (incl. every impl behind Box<dyn Logger>) contain no interior mutability under a deep type walk, so the only shared mutable state is the Mutex<HashMap<u32,TCPControlBlock>>; (R2) that table is reached only from tcp::repl with keys whose provenance is generate(client_info, key) for the ClientInfo created fresh in reply() for this frame; (R3) UDP passes no control block, control-block fields are touched only through the tcb parameter in three functions, get_tcb looks up exactly the key it was given; (R4) the wall clock is read in five named places and never reaches a branch condition; (R5) no RNG/env/fs/thread/socket call and no order-dependent hash iteration is reachable from reply().",
+    note="Cookie collisions (two flows hashing to one 32-bit key, with the constant key [0,0]) are outside this argument. Relies on Rust's aliasing rules for & / &mut.",
+    technique="state inventory + deep type walk for interior mutability + key provenance + who-may-call over the call graph", ref="§4 C08"),
 }
 
 NOT_YET = {}
